@@ -704,8 +704,13 @@ class BinaryOp(Expr):
                 if t in (self.left.type, self.right.type):
                     operand_type = t
                     break
-        left = operand_type.coerce(self.left.eval())
-        right = operand_type.coerce(self.right.eval())
+        # an operand is first held at its own type (a SINGLE literal
+        # is rounded to single precision when it is pushed) and then
+        # converted to the operand type of the operation
+        left = operand_type.coerce(
+            self.left.type.coerce(self.left.eval()))
+        right = operand_type.coerce(
+            self.right.type.coerce(self.right.eval()))
         if not operand_type.can_hold(left) or \
            not operand_type.can_hold(right):
             # converting the operand overflows at run time
@@ -819,7 +824,7 @@ class UnaryOp(Expr):
         if not self.arg.type.is_numeric:
             raise EvalError('Invalid operand for unary operator')
 
-        value = self.arg.eval()
+        value = self.arg.type.coerce(self.arg.eval())
         if self.op == Operator.NOT:
             value = int(round(value))
             value = ~value
